@@ -67,6 +67,30 @@ func (ex *Exec) instr(b *ssa.BasicBlock, in ssa.Instruction) {
 		ex.vals[in] = v
 	case *ssa.TypeAssert:
 		ex.typeAssert(in, r)
+	case *ssa.Range:
+		// Iteration over a map visits the entries in an order that Go
+		// randomises on purpose; iteration over a string is ordered. Neither
+		// is modelled in detail: Next yields arbitrary (ok, key, value).
+		if _, isMap := in.X.Type().Underlying().(*types.Map); isMap {
+			ex.addObl("unordered-iteration", "", r, "false", in.Pos(),
+				"range over a map: the iteration order is unspecified (Go randomises it), so nothing that depends on the order of the entries can be established", false)
+		}
+		ex.vals[in] = Val{K: KRef, T: "0", Typ: in.Type()}
+	case *ssa.Next:
+		tt := in.Type().(*types.Tuple)
+		tv := Val{K: KTuple, Typ: tt}
+		for i := 0; i < tt.Len(); i++ {
+			ft := tt.At(i).Type()
+			if b, ok := ft.(*types.Basic); ok && b.Kind() == types.Invalid {
+				tv.Fields = append(tv.Fields, Val{K: KLit, T: "unavailable"})
+				continue
+			}
+			fv := c.freshVal(ft, ex.nm("next"))
+			fv.Typ = ft
+			c.assume(ex.v.wfAssume(c, fv))
+			tv.Fields = append(tv.Fields, fv)
+		}
+		ex.vals[in] = tv
 	case *ssa.Extract:
 		t := ex.val(in.Tuple)
 		v := t.Fields[in.Index]
